@@ -7,18 +7,11 @@ from concurrent.futures import ThreadPoolExecutor
 import build
 import driver
 
-ASSUME_COMMON = [
-    "gcc 12 sanitizer runtimes (ASan/UBSan/LSan/TSan) and libstdc++ are trusted",
-    "the reference model in the harness is trusted; it is < 200 lines and was cross-checked against the property text",
-    "only executions produced by the seeded workload are covered; nothing is claimed about inputs or interleavings not generated",
-]
+import glob
+import importlib
 
-
-def run(name, harness, flavour, quick, thorough, sq=4, st=16, **kw):
-    r = {"name": name, "harness": harness, "sources": ["harness/%s.cc" % harness], "flavour": flavour,
-         "cases": {"quick": quick, "thorough": thorough}, "shards": {"quick": sq, "thorough": st}}
-    r.update(kw)
-    return r
+sys.path.insert(0, os.path.dirname(os.path.abspath(__file__)))
+from specs.common import run, ASSUME_COMMON  # noqa: E402,F401
 
 
 PROPS = {}
@@ -35,33 +28,14 @@ ENGINES = [
      "serves_properties": []},
 ]
 
-PROPS["C14"] = {
-    "runs": [run("e1-model", "c14_tracestate", "asan", 5000, 500000, need_lib=False)],
-    "floors": {
-        "quick": {"set_present_key": 1000, "ops_at_size_32": 300, "roundtrip_ge10_members": 300,
-                  "headers_valid": 1000, "headers_invalid": 500, "headers_over_32": 200, "delete_present_key": 500},
-        "thorough": {"set_present_key": 100000, "ops_at_size_32": 30000, "roundtrip_ge10_members": 30000,
-                     "headers_valid": 100000, "headers_invalid": 50000, "headers_over_32": 20000},
-    },
-    "engine": "E1 model-oracle",
-    "technique": "reference-model oracle in lock-step with the real TraceState under ASan+UBSan, generated operation sequences and headers",
-    "level_text": ("exploration: thousands of seeded Set/Delete/Get/header programs run against the real header-only "
-                   "implementation with a list model compared after every step; exact-size caller buffers killed after each "
-                   "call so ownership slips become ASan reports. Right level because the property quantifies over "
-                   "histories/inputs of a pure sequential API and a small model decides each step."),
-    "level_note": ("trusts the reference list model and the three-valued W3C validity predicate in harness/c14_tracestate.cc, "
-                   "gcc ASan/UBSan; covers only generated programs (pool of <=40 keys, boundary lengths, 32-member limit)"),
-    "rule": ("case i = one seeded program of 1..80 Set/Delete/Get/ToHeader+FromHeader operations applied in lock-step to "
-             "the real TraceState and to a reference list model (keys drawn from a pool of <=40 plus boundary lengths "
-             "255/256/257, multi-tenant limits, invalid bytes, embedded NUL; one third of the programs first climb to "
-             "32 members), followed by 4 generated headers (OWS, empty members, missing '=', 31/32/33+ members, random "
-             "bytes). All arguments are exact-size unterminated heap views scribbled or freed after the call. A case is "
-             "non-trivial if it executed at least one Set/Delete or parsed one header; distinct = distinct hash of the "
-             "operation/argument sequence or of the header bytes."),
-    "assumptions": ASSUME_COMMON + [
-        "key/value validity is three-valued: strings on which W3C level 1, level 2 and the two compiled validators disagree (leading digit, value ending in a blank, tenant part > 241) follow the implementation's verdict and are counted as don't-care",
-        "duplicate keys arriving in a header are outside the statement and not judged"],
-}
+
+# one spec file per property: vf/specs/cNN.py defining SPEC
+for _f in sorted(glob.glob(os.path.join(os.path.dirname(os.path.abspath(__file__)), "specs", "c[0-9][0-9].py"))):
+    _m = importlib.import_module("specs." + os.path.basename(_f)[:-3])
+    PROPS[os.path.basename(_f)[:-3].upper()] = _m.SPEC
+    for _e in ENGINES:
+        if _e["name"] == _m.SPEC.get("engine") or _e["name"] in _m.SPEC.get("engines_used", ()):
+            _e["serves_properties"].append(os.path.basename(_f)[:-3].upper())
 
 
 def setup(args):
